@@ -246,6 +246,9 @@ impl UnixTerminal {
                 Ok(None) if !self.write_queue.is_empty() && send != self.stats.send => {
                     send = self.stats.send;
                 }
+                // report that arrives before the request has left the queue is
+                // an answer to an older request
+                Ok(Some(TerminalEvent::DeviceAttrs(_))) if !self.write_queue.is_empty() => {}
                 Err(_) | Ok(Some(TerminalEvent::DeviceAttrs(_)) | None) => break,
                 _ => {}
             }
